@@ -97,21 +97,28 @@ CHECKS.update({
              'matrix end to end, with output-wise linearity (no mixing between outputs), the chain rule for a symmetric matrix, and an exactly '
              'zero term for a coinciding center; the full statement is proved (C04_full_holds): for every kernel incl. the memory-light one, no transform / vector / symmetric '
              'matrix, every n and every point in general position the predictor on R^n is Frechet differentiable and the returned row is its gradient. The real get_function_grads, RFM.get_grads and xRFM.get_grads are compared with these closed '
-             'forms under a computed allowance, and independently with Richardson finite differences of the real kernel and predict.',
+             'forms under a computed allowance, and independently with Richardson finite differences of the real kernel and predict. For the two closed-form '
+             'routines (L2, memory-light) the statements of the gradient code itself are regenerated on every run (Gen.GradOps: the tensor program '
+             'kernel_mat = dists**q, mul_/exp_/clamp_/pow_, mask = dists >= eps, tensor products, einsum difference) and gen_fgrad_eq_model proves that '
+             'this program returns exactly the closed-form gradient tensor; the driver runs it at Float next to the model.',
         note=TB + 'General position as in the property: distance (L2-type kernels) or every coordinate difference (coordinate-wise kernels) at least eps. Exact real arithmetic; rounding (incl. the unmasked self-term cancellation of '
-             'the expansion-distance kernels) is absorbed by a computed per-entry allowance. No translator tie (correspondence only). torch '
+             'the expansion-distance kernels) is absorbed by a computed per-entry allowance. Translator tie for the L2 / memory-light gradient routines (Gen.GradOps); the autograd-based routines (product, Lpq, sum-power) are tied by the correspondence only. torch '
              'autograd, cdist, solve, SVD are modelled, not verified.',
-        technique='Lean 4 + Mathlib calculus (HasDerivAt) over a scalar-generic executable model; float64 correspondence with computed allowance; finite-difference oracle',
+        technique='Lean 4 + Mathlib calculus (HasDerivAt / HasFDerivAt) over a scalar-generic executable model; gradient tensor programs regenerated from source by the AST translator and proved equal to the model; float64 correspondence with computed allowance; finite-difference oracle',
         ref='DESIGN.md §6 C04'),
     'C05': dict(
         text='Symmetry, unit diagonal, range (0,1], light = L2 for M = T^2 (symmetric T), product = Lpq(q,q), row-locality and the alias table '
              '(regenerated from kernel_from_str) are proved in Lean at R for all dimensions and points, for the same definitions the driver runs '
              'at Float; these are compared entry-wise with the real kernels and every alias under a computed rounding allowance. Positive '
              'semi-definiteness for 0<q<=p<=2 is proved in full (C05_psd_holds: Schoenberg via the Bernstein representation of r^a, power series '
-             'and the Schur product theorem; any transform, dimension and number of points) and also checked numerically on the real matrices.',
+             'and the Schur product theorem; any transform, dimension and number of points) and also checked numerically on the real matrices. '
+             'The chain of tensor operations of every _get_kernel_matrix_impl (cdist / quadratic forms / coordinate differences, clamp_, sqrt_, pow_, '
+             'the _adapt_bandwidth call, mul_, exp_, abs_, sum, add_) is regenerated from the source on every run (Gen.KernelOps); gen_pipeline_eq_model '
+             'proves at R that it computes the closed form for every kernel, transform and pair of rows, bandwidth_read_after_adaptation that the '
+             'bandwidth enters after the adaptation, and the driver runs the regenerated chain at Float against torch on every matrix.',
         note=TB + 'Exact real arithmetic; rounding absorbed by an interval-image allowance per entry (cdist expansion mode above 25 rows, M-form of '
              'the light kernel); CPU only.',
-        technique='Lean 4 + Mathlib scalar-generic model (R proofs / Float driver), alias table regenerated by the AST translator, exhaustive alias and guard correspondence',
+        technique='Lean 4 + Mathlib scalar-generic model (R proofs / Float driver); kernel tensor-operation chains and alias table regenerated from source by the AST translator and proved equal to the closed forms; exhaustive alias and guard correspondence',
         ref='DESIGN.md §6 C05'),
     'C07': dict(
         text='Theorems (Props/C07.lean) over the index-level model of _build_tree/_get_balanced_split/_refill_val_set built from the regenerated '
